@@ -116,12 +116,12 @@ struct Cfg { int nt; long long iv[4]; bool per[4]; int reinit_mask; bool reinit_
              bool rich; bool pairs; bool tickus; int lazy_mask; int nrun; long long run[3]; };
 static const long long P31 = 1LL << 31, P32 = 1LL << 32, P33 = 1LL << 33, DAY = 86400000LL;
 static const Cfg CFGS[] = {
-  {3, {2, 3, 2, 0}, {true, false, true, false}, 3, false, false, false, 5, {0, 1, 2, 3, 7}, true, true, true, 0, 0, {0, 0, 0}},
+  {3, {2, 3, 2, 0}, {true, false, true, false}, 3, false, false, false, 5, {0, 1, 2, 3, 7}, true, true, false, 0, 0, {0, 0, 0}},
   {4, {1, 5, 3, 2}, {true, false, true, false}, 3, false, false, false, 5, {0, 1, 2, 3, 7}, true, true, false, 0, 0, {0, 0, 0}},
   {4, {2, 2, 2, 2}, {true, true, false, false}, 3, false, false, false, 5, {0, 1, 2, 3, 7}, true, true, false, 0, 0, {0, 0, 0}},
   // 3: re-initialisation configuration: initialize() with the same parameters / another interval / the other mode, top level and inside callbacks;
   //    t1 starts life UNINITIALISED (enable()/disable() before initialize() must leave it silent)
-  {2, {2, 3, 0, 0}, {true, false, false, false}, 3, true, false, false, 5, {0, 1, 2, 3, 7}, true, true, true, 2, 0, {0, 0, 0}},
+  {2, {2, 3, 0, 0}, {true, false, false, false}, 3, true, false, false, 5, {0, 1, 2, 3, 7}, true, true, false, 2, 0, {0, 0, 0}},
   // 4: sleeping configuration: exitLoop(T) + runLoop(kForever) with the back-end's sleep simulated; timer records pooled
   {3, {2, 3, 3, 0}, {true, false, true, false}, 0, false, true, true, 2, {0, 3, 0, 0, 0}, true, true, true, 0, 3, {1, 4, 7}},
   // 5..10: magnitude configurations (pass lane): a one-shot and a persistent timer with intervals around 2^31, 2^32, 2^33 ms and of 30 / 60 / 75 days,
@@ -169,7 +169,7 @@ static int timer_mode(const std::string &eng, size_t depth, int config) {
     for (int i = 0; i < C.nadv; i++) m.push_back({ADVANCE, 0, C.adv[i], 0, 0, 0});
     m.push_back({TICK, 0, 3, 0, 0, 0});                 // the clock moves on but the loop does not run: the next op meets overdue timers
     if (C.tickus) m.push_back({TICKUS, 0, 400, 0, 0, 0});   // sub-millisecond clock positions (x.4, x.8, (x+1).2 ...)
-    if (C.runfor) { for (int i = 0; i < C.nrun; i++) m.push_back({RUNFOR, 0, C.run[i], 0, 0, 0}); for (int i = 1; i < C.nrun; i++) if (C.run[i] < 1000) m.push_back({RUNFOR, 0, C.run[i], 1, 0, 0}); }
+    if (C.runfor) { for (int i = 0; i < C.nrun; i++) m.push_back({RUNFOR, 0, C.run[i], 0, 0, 0}); if (C.nrun > 0 && C.run[C.nrun - 1] < 1000) m.push_back({RUNFOR, 0, C.run[C.nrun - 1], 1, 0, 0}); }
     for (int t = 0; t < NT; t++) if (C.reinit_mask & (1 << t)) { if (C.reinit_kinds) { for (int r : {R_SAME, R_IV, R_MODE}) m.push_back({REINIT, t, 0, 0, 0, r}); } else m.push_back({REINIT, t, 0, 0, 0, R_LEGACY}); }
     if (h.empty()) { for (int t = 0; t < NT; t++) scripts_of(t, !C.rich, m);
       if (C.rich) for (int o = 0; o < NT; o++) for (int a : {DIS_OTHER, DESTROY_OTHER, ENABLE_OTHER, RESTART_OTHER}) m.push_back({SCRIPT, NT, a, o, 0, 0}); }
@@ -280,7 +280,7 @@ static int pool_mode(const std::string &eng, size_t depth) {
       if (issued < 3) { m.push_back({P_AT, 2, PA_NONE}); m.push_back({P_AT, 1, PA_CANCEL_OLDER}); }      // absolute wall-clock time point (wall clock = monotonic clock + 1.7e12 ms)
       for (int i = 0; i < issued; i++) m.push_back({P_CANCEL, i, 0}); }
     for (int d : {0, 1, 2, 5}) m.push_back({P_ADVANCE, d, 0});
-    m.push_back({P_TICK, 2, 0}); m.push_back({P_TICKUS, 400, 0});
+    m.push_back({P_TICK, 2, 0});
     if (!gone) { m.push_back({P_CLEANUP, 0, 0}); m.push_back({P_DESTROY_POOL, 0, 0}); }      // the pool dies with timers pending: none of them may ever fire
     return m; };
   ex.run = [&](const std::vector<POp> &h, std::string &viol) {
